@@ -428,6 +428,15 @@ theorem loaded_crontabs_good (p : String) (d : DocV1) (e : Effective) (h : conve
     simp only [Spec.goodCrontab, Bool.and_eq_true]
     exact this.1
 
+/-- **C10 (the validated crontab is the stored crontab — tie to the sources)** In the v1 and the v0 converter the
+expression `CheckSchedule` hands to `ParseCrontab` and the expression `ConvertSchedule` stores in
+`ScheduleEntry.Crontab` are the same field of the declared binding, untransformed (extracted from the sources on
+every run): the model's single `crontab` per schedule — checked and stored — is the code's. -/
+theorem crontab_checked_is_stored :
+    Facts.c10CheckedCrontabV1 = "schV1.Crontab" ∧ Facts.c10StoredCrontabV1 = "schV1.Crontab" ∧
+    Facts.c10CheckedCrontabV0 = "schV0.Crontab" ∧ Facts.c10StoredCrontabV0 = "schV0.Crontab" := by
+  decide
+
 /-- non-vacuity: a descriptor behind a blank is a text the cron library refuses (`parseOK := false` is its
 verdict on `" @hourly"`): rejected; the same descriptor at the first character loads, text unchanged. -/
 example :
